@@ -29,6 +29,10 @@ type FanSpec struct {
 	HasPwm    bool            `json:"hasPwm"` // sim only: PWM read-back
 	SimMin    int             `json:"simMin,omitempty"`
 	SimMax    int             `json:"simMax,omitempty"`
+	// ExpMin / ExpMax: the limits the user's configuration and the attached measurement define (configured values
+	// win over measured ones), where the property text settles them; nil = not asserted
+	ExpMin *int `json:"expMin,omitempty"`
+	ExpMax *int `json:"expMax,omitempty"`
 }
 
 type PlantSpec struct {
@@ -620,10 +624,59 @@ func genFan(r *rand.Rand, kinds []string) (FanSpec, int, int) {
 	f := FanSpec{Kind: kind, NeverStop: r.Intn(3) > 0, HasRpm: r.Intn(5) > 0, HasEnable: r.Intn(4) > 0, HasPwm: true}
 	switch kind {
 	case "hwmon":
-		if r.Intn(2) == 0 {
+		if part := r.Intn(5); part == 0 {
+			// only some of the limits configured, the others measured: measured start at ms, measured maximum at mm
+			ms, mm := genLimits(r)
+			data := map[int]float64{}
+			for p := 0; p <= 255; p += 1 + r.Intn(6) {
+				switch {
+				case p < ms:
+					data[p] = 0
+				case p >= mm:
+					data[p] = 3000
+				default:
+					data[p] = 500 + float64(p-ms)*2000/float64(mm-ms+1)
+				}
+			}
+			data[ms] = 500
+			if mm > ms {
+				data[mm] = 3000
+			} else {
+				data[ms] = 3000
+			}
+			if ms > 0 {
+				data[ms-1] = 0
+			}
+			f.Measured = data
+			switch r.Intn(3) {
+			case 0: // maximum configured (at or above the measured start), minimum measured
+				mx = ms + r.Intn(256-ms)
+				f.CfgMax = iptr(mx)
+				mn = ms
+				f.ExpMin, f.ExpMax = iptr(ms), iptr(mx)
+			case 1: // minimum configured (at or below the measured maximum), maximum measured
+				mn = r.Intn(mm + 1)
+				f.CfgMin = iptr(mn)
+				mx = mm
+				f.ExpMin, f.ExpMax = iptr(mn), iptr(mm)
+			default: // maximum and start configured, minimum left to fan2go
+				mx = ms + r.Intn(256-ms)
+				f.CfgMax = iptr(mx)
+				f.CfgStart = iptr(r.Intn(mx + 1))
+				mn = *f.CfgStart
+				f.ExpMax = iptr(mx)
+			}
+			if !f.NeverStop {
+				f.ExpMin = iptr(0)
+			}
+		} else if part <= 2 {
 			f.CfgMin, f.CfgMax = iptr(mn), iptr(mx)
 			if r.Intn(2) == 0 {
 				f.CfgStart = iptr(mn)
+			}
+			f.ExpMin, f.ExpMax = iptr(mn), iptr(mx)
+			if !f.NeverStop {
+				f.ExpMin = iptr(0)
 			}
 		} else {
 			// measured limits: first non-zero RPM at mn, highest RPM first reached at mx
